@@ -7,7 +7,7 @@
     the writes that had finished: the old one or the new one, never a mixture, never
     an empty or partial file. *)
 From Coq Require Import Lia ZifyBool ZifyNat ZifyN.
-From Ldlm Require Import Model.Base Model.Codec Proofs.CodecP1 Proofs.CodecP2.
+From Ldlm Require Import Model.Base Model.Codec Proofs.CodecP1 Proofs.CodecP2 Proofs.CodecP3.
 
 Local Open Scope nat_scope.
 
@@ -86,4 +86,14 @@ Proof.
   rewrite (file_read_ext _ (Fs (encode e) None))
     by (by rewrite crash_image, Hl, file_writes_snoc).
   rewrite file_read_encode. apply roundtrip; [|done]. by eapply Forall_forall in Hwf.
+Qed.
+
+(** [store.Read] on whatever the state file holds. *)
+
+Theorem file_read_safe f :
+  go_bytes (state_file f) ->
+  (exists m, file_read f = DecOk m) \/ (exists e, file_read f = DecErr e).
+Proof.
+  intros Hb. unfold file_read. destruct (state_file f) as [|c b] eqn:Hs; [left; by eexists|].
+  by apply decode_safe.
 Qed.
